@@ -357,3 +357,46 @@ REG.spec('task_manager.py:TaskManager.add_pilots',
                    'forall(lambda u: implies(indom(old(self._pilots), u), indom(self._pilots, u)), Str)']},
     opts     = dict(merge='scalars'),
     serves   = ['C13'])
+
+
+# ------------------------------------------------------------------------------
+# C08: TaskManager.cancel_tasks: the request that goes out names exactly the tasks
+# the caller named (all tasks of this manager when none is named) and is marked
+# for forwarding to the agents
+CancelMsg = T.Rec('TmgrCancelMsg', cmd=T.Str, uids=T.List(T.Str), tmgr=T.Str, fwd=T.Bool)
+
+
+def _cancel_publish(ex, node, st):
+    from pyvc.core import PyDict
+    msg = ex.ev(node.args[1], st)
+    arg = msg.items['arg']
+    rec = CancelMsg.mk(_coerce(msg.items['cmd'], T.Str).term, _coerce(arg.items['uids'], T.List(T.Str)).term,
+                       _coerce(arg.items['tmgr'], T.Str).term, _C.truthy(msg.items.get('fwd', _C.lift(False))))
+    log = ex.get_var(st, 'pub_log')
+    lty = log.ty
+    n = lty.len(log.term)
+    st.env['pub_log'] = _Val(lty, lty.mk(_z3.Store(lty.arr(log.term), n, rec), n + 1))
+    return _C.NONE
+_cancel_publish.mutates = ('pub_log',)
+
+REG.spec('task_manager.py:TaskManager.cancel_tasks',
+    params   = dict(uids=T.Union(T.NoneT, T.Str, T.List(T.Str))),
+    defaults = dict(uids=None),
+    self     = dict(_tasks=TaskMap, uid=T.Str),
+    ghost    = dict(pub_log=T.List(CancelMsg)),
+    effects  = {'self.publish': _cancel_publish},
+    modifies = ['pub_log'],
+    raises   = {},
+    ensures  = [('one-request-goes-out-marked-for-the-agents',
+                 'len(pub_log) == len(old(pub_log)) + 1 and pub_log[len(old(pub_log))].cmd == "cancel_tasks" and '
+                 'pub_log[len(old(pub_log))].fwd and pub_log[len(old(pub_log))].tmgr == self.uid')],
+    variant_ensures = {
+      'uids:Str': [('a-single-uid-names-that-task-only',
+                    'implies(old(uids) != "", len(pub_log[len(old(pub_log))].uids) == 1 and pub_log[len(old(pub_log))].uids[0] == old(uids))')],
+      'uids:List[Str]': [('exactly-the-named-tasks',
+                          'implies(len(old(uids)) > 0, pub_log[len(old(pub_log))].uids == old(uids))')],
+      'uids:None': [('no-name-means-every-task-of-this-manager',
+                     'len(pub_log[len(old(pub_log))].uids) == len(self._tasks) and '
+                     'forall(lambda k: implies(0 <= k < len(pub_log[len(old(pub_log))].uids), indom(self._tasks, pub_log[len(old(pub_log))].uids[k])))')],
+    },
+    serves   = ['C08'])
